@@ -50,11 +50,11 @@ Proof. induction 1 as [|t w Ht _ IH]; [reflexivity|]. unfold st_skip in *. cbn. 
 Theorem parse_fb_spelled : forall w00 fb w0 nm w1 (l : rsl) w2 en w3,
   rtriv w00 -> t_kind fb = KFunctionBlock -> rtriv w0 -> t_kind nm = KIdentifier -> rtriv w1 ->
   rwf_l l -> rtriv w2 -> t_kind en = KEndFunctionBlock -> rtriv w3 ->
-  in_scope token tok_class (rflat_l l ++ w2 ++ en :: w3) = true ->
   parse_fb_tokens (w00 ++ fb :: w0 ++ nm :: w1 ++ rflat_l l ++ w2 ++ en :: w3) = OParsed (rerase_l l).
 Proof.
-  intros w00 fb w0 nm w1 l w2 en w3 H00 Hfb H0 Hnm H1 Hl H2 Hen H3 Hscope.
+  intros w00 fb w0 nm w1 l w2 en w3 H00 Hfb H0 Hnm H1 Hl H2 Hen H3.
   pose proof (class_fb fb Hfb) as Cfb. pose proof (class_id nm Hnm) as Cnm. pose proof (class_endfb en Hen) as Cen.
+  pose proof (wf_l_in_scope token tok_class op_level l w2 en KwEndPou w3 Hl H2 Cen H3) as Hscope.
   assert (Sfb : solid token tok_class fb) by (unfold solid; rewrite Cfb; discriminate).
   assert (Snm : solid token tok_class nm) by (unfold solid; rewrite Cnm; discriminate).
   assert (Sen : solid token tok_class en) by (unfold solid; rewrite Cen; discriminate).
@@ -80,10 +80,8 @@ Qed.
 Corollary parse_fb_respelled : forall w00 fb w0 nm w1 (l : rsl) w2 en w3 w00' fb' w0' nm' w1' (l' : rsl) w2' en' w3',
   rtriv w00 -> t_kind fb = KFunctionBlock -> rtriv w0 -> t_kind nm = KIdentifier -> rtriv w1 ->
   rwf_l l -> rtriv w2 -> t_kind en = KEndFunctionBlock -> rtriv w3 ->
-  in_scope token tok_class (rflat_l l ++ w2 ++ en :: w3) = true ->
   rtriv w00' -> t_kind fb' = KFunctionBlock -> rtriv w0' -> t_kind nm' = KIdentifier -> rtriv w1' ->
   rwf_l l' -> rtriv w2' -> t_kind en' = KEndFunctionBlock -> rtriv w3' ->
-  in_scope token tok_class (rflat_l l' ++ w2' ++ en' :: w3') = true ->
   rerase_l l = rerase_l l' ->
   parse_fb_tokens (w00 ++ fb :: w0 ++ nm :: w1 ++ rflat_l l ++ w2 ++ en :: w3) =
   parse_fb_tokens (w00' ++ fb' :: w0' ++ nm' :: w1' ++ rflat_l l' ++ w2' ++ en' :: w3').
@@ -95,7 +93,6 @@ Qed.
 Corollary parse_fb_fuel : forall w00 fb w0 nm w1 (l : rsl) w2 en w3,
   rtriv w00 -> t_kind fb = KFunctionBlock -> rtriv w0 -> t_kind nm = KIdentifier -> rtriv w1 ->
   rwf_l l -> rtriv w2 -> t_kind en = KEndFunctionBlock -> rtriv w3 ->
-  in_scope token tok_class (rflat_l l ++ w2 ++ en :: w3) = true ->
   parse_fb_tokens (w00 ++ fb :: w0 ++ nm :: w1 ++ rflat_l l ++ w2 ++ en :: w3) <> OFuel.
 Proof. intros. rewrite parse_fb_spelled by assumption. discriminate. Qed.
 
